@@ -47,6 +47,19 @@ from ..util import automat_state
 
 ID = "C17"
 PROP_MODULES = ["WV.Props.C17"]
+# [deepConn] translation validation of the Connector's method bodies (tools/extract.py::extract_pyir_conn ->
+# WV/Gen/PyIRConn.lean, interpreter WV/Model/PyIR.lean): part of the check as soon as the module is installed
+import os as _os_conn
+if _os_conn.path.exists(_os_conn.path.join(_os_conn.path.dirname(_os_conn.path.dirname(_os_conn.path.dirname(
+        _os_conn.path.abspath(__file__)))), "lean", "WV", "Props", "PyIRConn_C11.lean")):
+    PROP_MODULES.append("WV.Props.PyIRConn_C11")
+# [deepMgr] translation validation of the Manager / TrafficTimer method bodies (tools/extract.py::extract_pyir_mgr ->
+# WV/Gen/PyIRMgr.lean): part of the check as soon as the module is installed (agents/deepMgr_integration.md)
+import os as _os_mgr
+for _m_mgr in ("PyIRMgr_C17", "PyIRMgr_C16", "PyIRMgr_C17_Conn"):
+    if _os_mgr.path.exists(_os_mgr.path.join(_os_mgr.path.dirname(_os_mgr.path.dirname(_os_mgr.path.dirname(
+            _os_mgr.path.abspath(__file__)))), "lean", "WV", "Props", _m_mgr + ".lean")):
+        PROP_MODULES.append("WV.Props." + _m_mgr)
 TRUSTED = [
     "the fake network: loseConnection()/stopListening()/Deferred.cancel() are recorded and never fail; the "
     "network reports connectionLost once per connection, when the case says so ('cooperative completion' = "
